@@ -125,6 +125,23 @@ template<class Graph> struct Comp {
         return j.str();
     }
 
+    // shortest-path trees on stars with more than 2^8 / 2^16 vertices (shallow on purpose: lex_dijkstra labels carry the vertex set
+    // of the whole path).  star2 a: a star on 0..a-1 (centre 0) and a second one on a..2a-1 (centre a), edge i joins the centre
+    // and the i-th leaf in the order built here; b = weight of every edge; sources: the centre, the first and the last leaf
+    static void spt_family(const InGraph &in, const std::string &fam, long a, long b, const char *wt) {
+        InGraph syn; syn.id = in.id; syn.den = 1; syn.n = (int) (fam == "star2" ? 2 * a : a);
+        auto E = [&](long u, long v) { InEdge e; e.u = (int) u; e.v = (int) v; e.w = b; syn.edges.push_back(e); };
+        for (long i = 1; i < a; i++) E(0, i);
+        if (fam == "star2") for (long i = 1; i < a; i++) E(a, a + i);
+        Built<Graph> bb; build(syn, bb);
+        const Graph &g = bb.g;
+        WMap wm = boost::get(boost::edge_weight, g);
+        auto im = boost::get(boost::vertex_index, g);
+        std::vector<std::string> ts;
+        for (long s : {0L, 1L, a - 1}) { Tree t((size_t) s, g, im, wm, (Vertex) s); ts.push_back(tree_json(syn, bb, t)); }
+        emit(J().s("e", "SptFam").s("fam", fam).s("wt", wt).i("id", in.id).i("a", a).i("b", b).i("n", syn.n).arr("trees", ts).str());
+    }
+
     static void spt(const InGraph &in, const char *wt) {
         Built<Graph> b; build(in, b);
         J j; head("Spt", in, wt, j);
@@ -173,7 +190,7 @@ template<class Graph> void run_mode(const std::string &mode, const InGraph &g, c
     try {
         std::string fam; long fa = 0, fb = 0;
         for (auto &t : g.extra) { auto kv = split(t, '='); if (kv.size() == 2) { if (kv[0] == "fam") fam = kv[1]; else if (kv[0] == "a") fa = atol(kv[1].c_str()); else if (kv[0] == "b") fb = atol(kv[1].c_str()); } }
-        if (!fam.empty()) { if (mode == "fvs") Comp<Graph>::fvs_family(g, fam, fa, fb); else if (mode == "forest") Comp<Graph>::forest_family(g, fam, fa, fb); return; }
+        if (!fam.empty()) { if (mode == "fvs") Comp<Graph>::fvs_family(g, fam, fa, fb); else if (mode == "forest") Comp<Graph>::forest_family(g, fam, fa, fb); else if (mode == "spt") Comp<Graph>::spt_family(g, fam, fa, fb, wt); return; }
         if (mode == "forest") Comp<Graph>::forest(g, wt);
         else if (mode == "fvs") Comp<Graph>::fvs(g, wt);
         else if (mode == "spt") Comp<Graph>::spt(g, wt);
